@@ -986,10 +986,10 @@ PROPS = {
     "C02": dict(module="FV.Props.C02", theorems=["FV.Props.C02_view_within", "FV.Props.C02_truncation_validates", "FV.Props.C02_deep_read_total"], suites=["bytes"], proj=proj_C02, oracle=oracle_C02),
     "C04": dict(module="FV.Props.C04", theorems=["FV.Props.C04_view_fits", "FV.Props.C04_ceil_least", "FV.Props.C04_floor_greatest", "FV.Props.C04_positions_eq_c", "FV.Props.C04_struct_size_eq_c", "FV.Props.C04_enum_data_offset_eq_c", "FV.Props.C04_vec_data_offset_eq_c"], suites=["bytes"], proj=proj_C04, oracle=oracle_C04),
     "C05": dict(module="FV.Props.C05", theorems=["FV.Props.C05_size_exact", "FV.Props.C05_truncation_same_content"], suites=["bytes", "emplace"], proj=proj_C05, oracle=oracle_C05),
-    "C03": dict(module="FV.Props.C03", theorems=["FV.Props.C03_emplace_validates_partial", "FV.Props.C03_vec_from_iterator", "FV.emplaceU_ok", "FV.flexFill_spec"], suites=["emplace"], proj=proj_C03, oracle=oracle_C03),
+    "C03": dict(module="FV.Props.C03", theorems=["FV.Props.C03_emplace_reads_back", "FV.Props.C03_emplace_validates_partial", "FV.Props.C03_vec_from_iterator", "FV.emplaceU_ok", "FV.emplaceU_content", "FV.flexFill_spec", "FV.flexFill_content"], suites=["emplace"], proj=proj_C03, oracle=oracle_C03),
     "C15": dict(module="FV.Props.C15", theorems=["FV.Props.C15_emplace_total_partial", "FV.Props.C15_vec_accepts_iff_fits"], suites=["emplace"], proj=proj_C15, oracle=oracle_C15, post=post_C15),
     "C18": dict(module="FV.Props.C18", theorems=["FV.Props.C18_vec_from_iterator_partial", "FV.Props.C18_flex_from_iterator_partial", "FV.Props.C18_nested_enum_counterexample"], suites=["emplace"], proj=proj_C18, oracle=oracle_C18),
-    "C20": dict(module="FV.Props.C20", theorems=["FV.Props.C20_vec_default_partial", "FV.Props.C20_default_valid_partial", "FV.Props.C20_str_default_partial", "FV.Props.C20_flex_default_partial"], suites=["emplace"], proj=proj_C20, oracle=oracle_C20, post=post_C20),
+    "C20": dict(module="FV.Props.C20", theorems=["FV.Props.C20_vec_default_partial", "FV.Props.C20_default_valid_partial", "FV.Props.C20_default_content", "FV.Props.C20_str_default_partial", "FV.Props.C20_flex_default_partial"], suites=["emplace"], proj=proj_C20, oracle=oracle_C20, post=post_C20),
     "C11": dict(module="FV.Props.C11", theorems=["FV.Props.C11_vec_step_refines", "FV.Props.C11_history", "FV.Props.C11_valid_gives_invariant"], suites=["ops"], proj=proj_C11, oracle=oracle_C11),
     "C12": dict(module="FV.Props.C12", theorems=["FV.Props.C12_valid_iff_sequence", "FV.Props.C12_truncate", "FV.Props.C12_pop", "FV.Props.C12_push", "FV.Props.C12_history"], suites=["ops"], proj=proj_C12, oracle=oracle_C12, post=post_witness("C12")),
     "C13": dict(module="FV.Props.C13", theorems=["FV.Props.C13_vec_refused_unchanged", "FV.Props.C13_flex_push_refused_unchanged"], suites=["ops"], proj=proj_C13, oracle=oracle_C13),
